@@ -332,6 +332,37 @@ def collision_generations(ctx, naming_cases, osets, traces):
     ctx.extra["collision_classes"] = len(coll)
 
 
+def graph_generations(ctx, traces):
+    """Dependency shapes: every TLC digraph on 4 classes (Order.tla; cycles, rings, diamonds, forward references)
+    becomes a schema; it is generated with the structure styles that split classes over modules and the
+    package is imported, bound and instantiated in a fresh interpreter."""
+    from xsdata.models.config import StructureStyle
+
+    from ..c12_worker import graph_xsd
+
+    res = ctx.tlc("MC_Order", "run.cfg", workers=1,
+                  extra_files={"run.cfg": "SPECIFICATION SpecGraphs\nCONSTANTS\n  Nodes = {1, 2, 3, 4}\nCONSTRAINT NoSelfLoops\nCONSTRAINT EmitGraph\nCHECK_DEADLOCK FALSE\n"},
+                  label="Gen_Order dependency graphs on 4 classes", tags=("GRAPH",), timeout=3000)
+    graphs = {}
+    for _t, g in res.printed:
+        edges = {str(i + 1): e for i, e in enumerate(g["edges"])} if isinstance(g["edges"], list) else g["edges"]
+        graphs[json.dumps(edges, sort_keys=True)] = {"edges": edges, "big": max(len(c) for c in g["sccs"])}
+    graphs = list(graphs.values())
+    rnd = random.Random(ctx.seed + 11)
+    big = [g for g in graphs if g["big"] >= 3]
+    rest = [g for g in graphs if g["big"] < 3]
+    pick = graphs if not ctx.quick else rnd.sample(big, min(22, len(big))) + rnd.sample(rest, min(6, len(rest)))
+    styles = [("clusters", {"structure_style": StructureStyle.CLUSTERS}), ("namespace-clusters", {"structure_style": StructureStyle.NAMESPACE_CLUSTERS}),
+              ("filenames", {"structure_style": StructureStyle.FILENAMES}), ("namespaces-unnest", {"structure_style": StructureStyle.NAMESPACES, "unnest_classes": True})]
+    for k, g in enumerate(pick):
+        # a self reference on the class the graph marks first keeps self loops in the picture
+        if k % 4 == 0:
+            g = {"edges": {**g["edges"], "1": sorted(set(g["edges"]["1"]) | {1})}}
+        oname, opts = styles[k % len(styles)]
+        generation_case(ctx, "xsd-graph", {"g.xsd": graph_xsd(g)}, ["g.xsd"], oname, opts, None, traces, f"graph-{k}")
+    ctx.extra["dependency_graphs_generated"] = len(pick)
+
+
 def validate_container_traces(ctx, traces):
     if not traces:
         return
@@ -396,6 +427,7 @@ def run(ctx):
             oname, opts, mut = osets[(k + len(kind)) % len(osets)]
             generation_case(ctx, kind, {fname: src}, [fname], oname, opts, mut, traces, f"{kind}-{k}")
     collision_generations(ctx, uniq, osets, traces)
+    graph_generations(ctx, traces)
     # the finding F28 is exercised by its reproducer in every run
     generation_case(ctx, "xml-sample", {"h.xml": '<root><type self="1"/><\u0394 a="1">x</\u0394>text</root>'}, ["h.xml"], "default", {}, None, traces, "f28")
     # the repository's own fixtures through every option set
